@@ -163,11 +163,25 @@ def run_case(case):
         ref = check_graph(sag.graph, cm, text, viol, cnt)
         # the graph is a function of the notation, not of the object's history: asking twice gives the same graph, and the graph of the mirror
         # (taken AFTER this object has built its own graph) is the graph of a fresh parse of the mirror's text
+        if k % 3 == 1:
+            # the graph object itself can be asked to (re)generate: same graph again, no error
+            fp0 = graph_fp(sag.graph)
+            for again in (2, 3):
+                try:
+                    sag.generate()
+                except Exception as exc:
+                    viol.append({"cls": "c17.regenerate-raises", "msg": f"StochasticAtomGraph.generate() call #{again} on one object raised {type(exc).__name__}: {exc}"[:300], "text": text})
+                    break
+                cnt["regenerations"] += 1
+                if graph_fp(sag.graph) != fp0:
+                    viol.append({"cls": "c17.graph-differs-after-regenerate", "msg": f"StochasticAtomGraph.generate() call #{again} on one object gave a different graph: {first_diff(fp0, graph_fp(sag.graph))}", "text": text})
+                    break
         if k % 3 == 0:
             try:
                 flag = dict(expect_schulz_zimm_distribution=sz)
                 if graph_fp(M.gen_stochastic_atom_graph(**flag).graph) != graph_fp(M.gen_stochastic_atom_graph(**flag).graph):
                     viol.append({"cls": "c17.graph-differs-between-calls", "msg": "two calls of gen_stochastic_atom_graph on one object gave different graphs", "text": text})
+
                 mir = M.gen_mirror()
                 if mir is not None:
                     mt = str(mir)
